@@ -343,7 +343,7 @@ BATCH_ITER = dict(
     self={"sampler": TSeq(TTuple([BOOL, INT]), mutable=False)},
     ghost={"g_start": (INT, "0")},
     requires=["len(self.sampler) == 0 or self.sampler[len(self.sampler) - 1][0]"],
-    loops={0: dict(anchor="for is_full_batch, idx in self.sampler", index="i",
+    loops={0: dict(anchor="for is_full_batch, idx in self.sampler", index="i", havoc_types={"idxs": TSeq(INT)},
                    invariant=["0 <= g_start and g_start <= i", "len(idxs) == i - g_start",
                               "forall(lambda t: implies(g_start <= t and t < i, not self.sampler[t][0]))",
                               "forall(lambda t: implies(0 <= t and t < len(idxs), idxs[t] == self.sampler[g_start + t][1]))",
